@@ -271,15 +271,38 @@ def cast_elem(ctx, x, dtype):
     return x
 
 
-def make_array(ctx, items, dtype=None):
+def fixed_width(dt):
+    """the numpy dtype when `dt` names a fixed-width integer type whose range the engine has to respect (anything but int64)"""
+    import numpy as np
+    try:
+        d = np.dtype(dt)
+    except TypeError:
+        return None
+    return d if d.kind in "iu" and d != np.dtype(np.int64) else None
+
+
+def wrap_elem(x, npdt):
+    """two's-complement wrap-around of an integer stored with the fixed-width dtype `npdt` (numpy 1.x: silent)"""
+    m = 1 << (npdt.itemsize * 8)
+    lo = 0 if npdt.kind == "u" else -(m >> 1)
+    if isinstance(x, Sym):
+        return mk(((term(x, "int") - lo) % m) + lo, "int")
+    return ((int(x) - lo) % m) + lo
+
+
+def make_array(ctx, items, dtype=None, npdtype=None):
     items = list(items)
-    dt = dtype or array_dtype(items)
+    dt = "int" if npdtype is not None else (dtype or array_dtype(items))
     if dt in ("float", "int"):
         items = [cast_elem(ctx, x, dt) for x in items]
+    if npdtype is not None:
+        ctx.assumed.add("fixed-width integer arrays: every stored element is reduced modulo 2**bits into the dtype's range (numpy 1.x wrap-around)")
+        items = [wrap_elem(x, npdtype) for x in items]
     r = ctx.new_list(items)
     c = ctx.cell(r)
     c.is_array = True
     c.dtype = dt
+    c.npdtype = npdtype
     return r
 
 
@@ -306,9 +329,17 @@ def array_binop(ctx, op, a, b, inplace):
         if dt == "int" and array_dtype(res) == "float":
             # numpy refuses to write a float result into an integer array (same-kind casting rule)
             ctx.raise_exc("TypeError", ("Cannot cast ufunc output from dtype('float64') to dtype('int64') with casting rule 'same_kind'",))
-        ctx.wcell(a, "[]").items[:] = [cast_elem(ctx, x, dt) for x in res] if dt in ("int", "float") else res
+        npd = getattr(ca, "npdtype", None)
+        out = [cast_elem(ctx, x, dt) for x in res] if dt in ("int", "float") else res
+        ctx.wcell(a, "[]").items[:] = [wrap_elem(x, npd) for x in out] if npd is not None else out
         return a
-    return make_array(ctx, res)
+    # array (op) python scalar, and two arrays of one dtype, keep a fixed-width integer dtype: + - * wrap around
+    npd = None
+    if isinstance(op, (ast.Add, ast.Sub, ast.Mult)) and array_dtype(res) in ("int", "bool"):
+        nds = [getattr(cx, "npdtype", None) for cx in (ca, cb) if cx is not None]
+        if all(d is not None and d == nds[0] for d in nds):
+            npd = nds[0]
+    return make_array(ctx, res, npdtype=npd)
 
 
 def binop(ctx, op, a, b, inplace=False):
